@@ -101,16 +101,24 @@ def render_xlsx(grid, *, opts=None, images=None) -> bytes:
         sheet_imgs = [(k, im) for k, im in enumerate(images or []) if im.get("unit", 0) == i]
         if sheet_imgs:
             anchors, drels = [], []
+            # dangling_pic: every drawing after the first numbers its relationships from rId11 and holds one more picture whose r:embed="rId1" its own
+            # relationships part does not define (a picture whose image part was removed) - the id exists only in the first drawing's relationships
+            base = 10 if opts.get("dangling_pic") and any(n.startswith("xl/drawings/drawing") for n in parts) else 0
             for j, (k, im) in enumerate(sheet_imgs):
                 name = f"image{k + 1}.{im['ext']}"
                 parts[f"xl/media/{name}"] = im["data"]
                 form = opts.get("img_ref", "parent")
-                drels.append((f"rId{j + 1}", ooxml.RT + "image", {"parent": "../media/" + name, "absolute": "/xl/media/" + name}[form], False))
+                drels.append((f"rId{j + 1 + base}", ooxml.RT + "image", {"parent": "../media/" + name, "absolute": "/xl/media/" + name}[form], False))
                 cx, cy = im.get("disp_w", im["w"]) * 9525, im.get("disp_h", im["h"]) * 9525
                 anchors.append(f'<xdr:oneCellAnchor><xdr:from><xdr:col>{j}</xdr:col><xdr:colOff>0</xdr:colOff><xdr:row>{j * 3}</xdr:row><xdr:rowOff>0</xdr:rowOff></xdr:from><xdr:ext cx="{cx}" cy="{cy}"/>'
                                f'<xdr:pic><xdr:nvPicPr><xdr:cNvPr id="{j + 2}" name="Picture {j + 1}" descr={quoteattr(im.get("alt", ""))}/><xdr:cNvPicPr/></xdr:nvPicPr>'
-                               f'<xdr:blipFill><a:blip xmlns:r="{ooxml.R}" r:embed="rId{j + 1}"/><a:stretch><a:fillRect/></a:stretch></xdr:blipFill>'
+                               f'<xdr:blipFill><a:blip xmlns:r="{ooxml.R}" r:embed="rId{j + 1 + base}"/><a:stretch><a:fillRect/></a:stretch></xdr:blipFill>'
                                f'<xdr:spPr><a:xfrm><a:off x="0" y="0"/><a:ext cx="{cx}" cy="{cy}"/></a:xfrm><a:prstGeom prst="rect"><a:avLst/></a:prstGeom></xdr:spPr></xdr:pic><xdr:clientData/></xdr:oneCellAnchor>')
+            if base:
+                anchors.append(f'<xdr:oneCellAnchor><xdr:from><xdr:col>9</xdr:col><xdr:colOff>0</xdr:colOff><xdr:row>9</xdr:row><xdr:rowOff>0</xdr:rowOff></xdr:from><xdr:ext cx="95250" cy="95250"/>'
+                               f'<xdr:pic><xdr:nvPicPr><xdr:cNvPr id="99" name="Picture 99" descr=""/><xdr:cNvPicPr/></xdr:nvPicPr>'
+                               f'<xdr:blipFill><a:blip xmlns:r="{ooxml.R}" r:embed="rId1"/><a:stretch><a:fillRect/></a:stretch></xdr:blipFill>'
+                               f'<xdr:spPr><a:xfrm><a:off x="0" y="0"/><a:ext cx="95250" cy="95250"/></a:xfrm><a:prstGeom prst="rect"><a:avLst/></a:prstGeom></xdr:spPr></xdr:pic><xdr:clientData/></xdr:oneCellAnchor>')
             parts[f"xl/drawings/drawing{pn}.xml"] = (f'<?xml version="1.0" encoding="UTF-8" standalone="yes"?><xdr:wsDr xmlns:xdr="http://schemas.openxmlformats.org/drawingml/2006/spreadsheetDrawing" xmlns:a="{ooxml.A}">'
                                                      + "".join(anchors) + "</xdr:wsDr>")
             parts[f"xl/drawings/_rels/drawing{pn}.xml.rels"] = ooxml._rels(drels)
@@ -437,7 +445,7 @@ def grids(draw, fmt, max_sheets=3, max_r=6, max_c=5, headers="plain", single_row
         if k == "int":
             return {"t": "n", "v": draw(st.integers(1000000, 9999999))}
         if k == "float":
-            return {"t": "n", "v": draw(st.sampled_from([0.5, 1.25, -3.75, 1234.5, 1e-3, 2.0 ** 40 + 0.5]))}
+            return {"t": "n", "v": draw(st.sampled_from([0.5, 1.25, -3.75, 1234.5, 1e-3, 2.0 ** 40 + 0.5, 1e-07, 2.5e-09, 1e+20, -4e+17]))}
         if k == "b":
             return {"t": "b", "v": draw(st.booleans())}
         if k == "d":
